@@ -739,7 +739,14 @@ impl Parser {
         }
 
         match lexem {
-            Some(Lexem::String(ref s)) | Some(Lexem::RawString(ref s)) => {
+            // a quoted literal is always text, even if it spells a column or function name
+            Some(Lexem::String(ref s)) => {
+                let mut expr = Expr::value(s.to_string());
+                expr.minus = minus;
+
+                Ok(Some(expr))
+            }
+            Some(Lexem::RawString(ref s)) => {
                 if let Ok(field) = Field::from_str(s) {
                     let mut expr = Expr::field(field);
                     expr.minus = minus;
